@@ -1256,6 +1256,14 @@ impl<T: El> MapWorld<T> {
                         ok = true;
                     }
                 }
+                if self.cfg.flags.cheap && is_chain && removed && !ok {
+                    // scale sweeps do not look where the removed key lived: allow the other case
+                    let mut w2 = l0.saturating_sub(1 - rfo.min(1));
+                    for _ in 0..ins {
+                        w2 -= w2.min(R);
+                    }
+                    ok = l1 == w2;
+                }
                 if !ok {
                     vbail!("monitor", "{} left {} elements in the old table; {} were there and min(R, remaining) must move", op, l1, rem);
                 }
